@@ -109,7 +109,10 @@ def int_from_bytes(interp, b, byteorder="big", signed=False):
         interp.throw("TypeError", "cannot convert object to bytes")
     rope = ops.norm(b.rope)
     if any(isinstance(e, Blk) for e in rope):
-        raise Unsupported("int.from_bytes on octets of symbolic length")
+        # symbolic length: one path per length (fields of at most 16 octets), then element-wise as for a fixed-size field
+        from . import builtins_model as bm
+        k = bm.concretize(interp, ops.rope_len(rope), 17)
+        rope = exact_elements(interp, rope, k, "ValueError", "unreachable: length was fixed on this path")
     els = list(rope) if byteorder == "big" else list(reversed(rope))
     if not els:
         return 0
@@ -256,6 +259,39 @@ def struct_unpack_from(interp, fmt, data, offset=0):
         interp.throw("struct.error", f"unpack_from requires a buffer of at least {total} bytes")
     piece = BytesV(bm.rope_slice(interp, data.rope, off, ops.add(off, total)), "bytes")
     return struct_unpack(interp, fmt, piece)
+
+
+def struct_iter_unpack(interp, fmt, data):
+    """struct.iter_unpack(fmt, buffer): struct.error unless the buffer is a non-zero multiple of calcsize(fmt) ... evaluated
+    eagerly (the real function raises at the call as well); needs an octet string of concrete length"""
+    _, items = parse_fmt(interp, fmt)
+    total = sum(n for n, _ in items)
+    if not isinstance(data, BytesV):
+        interp.throw("TypeError", "a bytes-like object is required")
+    if total == 0:
+        interp.throw("struct.error", "cannot iteratively unpack with a struct of length 0")
+    n = ops.rope_len(data.rope)
+    if not isinstance(n, int):
+        n = interp.bm.concretize(interp, n, 70)
+    if n % total:
+        interp.throw("struct.error", f"iterative unpacking requires a buffer of a multiple of {total} bytes")
+    from . import builtins_model as bm
+    return PyList([struct_unpack(interp, fmt, BytesV(bm.rope_slice(interp, data.rope, i, i + total), "bytes")) for i in range(0, n, total)])
+
+
+def struct_struct(interp, fmt):
+    """struct.Struct(fmt): a namespace of the module functions with the format bound (other attributes: not modelled)"""
+    if isinstance(fmt, BytesV):
+        raise Unsupported("struct.Struct with a bytes format")
+    _, items = parse_fmt(interp, fmt)
+    o = ModuleV("struct.Struct", {})
+    o.ns["format"] = fmt
+    o.ns["size"] = sum(n for n, _ in items)
+    o.ns["pack"] = _b("Struct.pack")(lambda interp, *vals: struct_pack(interp, fmt, *vals))
+    o.ns["unpack"] = _b("Struct.unpack")(lambda interp, data: struct_unpack(interp, fmt, data))
+    o.ns["unpack_from"] = _b("Struct.unpack_from")(lambda interp, data, offset=0: struct_unpack_from(interp, fmt, data, offset))
+    o.ns["iter_unpack"] = _b("Struct.iter_unpack")(lambda interp, data: struct_iter_unpack(interp, fmt, data))
+    return o
 
 
 def struct_calcsize(interp, fmt):
@@ -443,7 +479,21 @@ def stub_module(interp, name):
         m.ns["unpack"] = _b("struct.unpack")(struct_unpack)
         m.ns["unpack_from"] = _b("struct.unpack_from")(struct_unpack_from)
         m.ns["calcsize"] = _b("struct.calcsize")(struct_calcsize)
+        m.ns["iter_unpack"] = _b("struct.iter_unpack")(struct_iter_unpack)
+        m.ns["Struct"] = _b("struct.Struct")(struct_struct)
         m.ns["error"] = interp.exc_classes["struct.error"]
+        return m
+    if name == "itertools":
+        m = ModuleV("itertools", {})
+
+        def chain(interp, *its):
+            from . import builtins_model as bm
+            interp.ctx.trusted.add("iterators (enumerate, zip, iter, itertools.chain) are modelled as lists: one-pass consumption is not modelled")
+            out = []
+            for it in its:
+                out.extend(bm.iterate(interp, it))
+            return PyList(out)
+        m.ns["chain"] = _b("itertools.chain")(chain)
         return m
     if name == "enum":
         m = ModuleV("enum", {})
